@@ -110,12 +110,14 @@ func TestStoreBufferOutcomes(t *testing.T) {
 }
 
 func TestUnbufferedRendezvous(t *testing.T) {
-	for seed := uint64(0); seed < 300; seed++ {
+	for seed := uint64(0); seed < 600; seed++ {
 		ch := make(chan int)
 		var got []int
 		var sum int64
 		var wg sync.WaitGroup
-		r := Run(cfgFor(seed), func() {
+		cf := cfgFor(seed)
+		cf.RaceGates = seed >= 300 // both gate kinds; the passive side of a rendezvous may be opened twice in a row
+		r := Run(cf, func() {
 			for p := 0; p < 3; p++ {
 				WGAdd(&wg, 1)
 				Go(func() {
